@@ -46,6 +46,8 @@ def part_sizes(case, stack, ext):
     """step of every level of a shape stack, top level first (uniform_shape: the size; nway_shape(n): (extent - 1) // n + 1)"""
     out = []
     for pstr in stack:
+        if not pstr.startswith(("uniform_shape", "nway_shape")):
+            return None
         arg = pstr[pstr.index("(") + 1:-1]
         val = int(arg) if arg.isdigit() else case["env"][arg]
         if pstr.startswith("uniform_shape"):
